@@ -26,7 +26,7 @@ ASSUMPTIONS = ['input headers carry the cards a GUPPI writer always emits (TELES
                "requantiser as built by from_data (statistics refreshed on every call); gain band [0.4,2.5] x median per antenna/pol (the final requantisation stage's per-sub-block deviation estimate scatters by ~25%; a decay by the digitiser deviation is 13.6x)",
                'exact model only for num_subblocks=1; rounding-tie window 1e-6']
 REQUIRED_CLASSES = ['bits=8', 'bits=4', 'pols=1', 'pols=2', 'ants>1', 'directio=1', 'directio=0', 'aligned', 'multi_file',
-                    'digitize', 'nodigitize', 'requested_longer', 'requested_shorter', 'exact_model', 'subblocks>=2', 'lazy_channelized_stds']
+                    'digitize', 'nodigitize', 'requested_longer', 'requested_shorter', 'exact_model', 'subblocks>=2', 'lazy_channelized_stds', 'per_pol_digitisers', 'record_after_aborted_record']
 
 
 @st.composite
@@ -48,7 +48,9 @@ def strategy_(draw, tier):
                 sr=draw(st.sampled_from([1e6, 187.5e6, 3e9])), ascending=draw(st.booleans()),
                 seed=draw(st.integers(0, 10 ** 6)), tone_chan=draw(st.integers(0, 3)),
                 tone_bin=draw(st.integers(1, 3)), level=draw(st.sampled_from([0.5, 1.0, 2.0])),
-                fch1=draw(st.sampled_from([0.0, 6e9])), preseed=draw(st.sampled_from([True, True, True, False])))
+                fch1=draw(st.sampled_from([0.0, 6e9])), preseed=draw(st.sampled_from([True, True, True, False])),
+                dig_list=draw(st.booleans()), dig_fwhms=draw(st.lists(st.sampled_from([32.0, 20.0, 12.0, 48.0]), min_size=6, max_size=6)),
+                abort_first=draw(st.sampled_from([False, False, True])), abort_call=draw(st.integers(2, 4)))
 
 
 def strategy(tier):
@@ -129,9 +131,21 @@ def build(c, stem_in):
     if c.get('preseed', True) or c['na'] > 1 or c['B'] > 8:
         fb.estimate_channelized_stds(factor=300, seed=1)      # pre-seeded (cheap), copied into every filterbank
     # else: left to the backend, which estimates lazily inside the first sub-block (the default use)
-    be = BE.RawVoltageBackend.from_data(stem_in, src, digitizer=Q.RealQuantizer(), filterbank=fb,
+    be = BE.RawVoltageBackend.from_data(stem_in, src, digitizer=make_digitizers(c), filterbank=fb,
                                         start_chan=c['start_chan'], num_subblocks=c['nsb'])
     return src, be
+
+
+def dig_fwhm(c, a, p):
+    return c['dig_fwhms'][(a * 2 + p) % 6] if c.get('dig_list') else 32.0
+
+
+def make_digitizers(c):
+    from setigen.voltage import quantization as Q
+    if not c.get('dig_list'):
+        return Q.RealQuantizer()
+    # one digitiser per antenna and polarisation, each with its own target width
+    return [[Q.RealQuantizer(target_fwhm=dig_fwhm(c, a, p)) for p in range(c['npol'])] for a in range(c['na'])]
 
 
 def run_case(case, ctx):
@@ -195,6 +209,28 @@ def run_case(case, ctx):
     if lazy:
         obs.cls('lazy_channelized_stds')
     stds_before = [[None if lazy else np.array(be.filterbank[a][p].channelized_stds, copy=True) for p in range(c['npol'])] for a in range(c['na'])]
+    if c.get('dig_list'):
+        obs.cls('per_pol_digitisers')
+    if c.get('abort_first') and n_out >= 1:
+        obs.cls('record_after_aborted_record')
+        real = src.get_samples
+        st_ = {'n': 0}
+
+        def flaky(n, real=real, st_=st_):
+            st_['n'] += 1
+            if st_['n'] == c['abort_call']:
+                raise KeyboardInterrupt()
+            return real(n)
+        src.get_samples = flaky
+        try:
+            be.record(output_file_stem=ctx.path('aborted'), num_blocks=req, length_mode='num_blocks', header_dict={},
+                      digitize=c['digitize'], load_template=False, verbose=False)
+        except KeyboardInterrupt:
+            pass
+        src.get_samples = real
+        aborted = True
+    else:
+        aborted = False
     stem_out = ctx.path('out')
     hd = {}
     ok, _ = core.call(obs, 'record', lambda: be.record(output_file_stem=stem_out, num_blocks=req, length_mode='num_blocks',
@@ -234,6 +270,44 @@ def run_case(case, ctx):
     if int(h.get('NANTS', 1)) != c['na']:
         obs.fail('output_header:NANTS', f'{h.get("NANTS")} vs {c["na"]}')
     out = [ref_guppi.decode(b['data'], obsnchan, c['npol'], c['nbits']) for b in out_blocks]
+    if aborted:
+        # setup B: identical antenna, same aborted first recording by another backend, then a FRESH backend records
+        src_b, be_b1 = build(c, stem_in)
+        real_b = src_b.get_samples
+        st_b = {'n': 0}
+
+        def flaky_b(n):
+            st_b['n'] += 1
+            if st_b['n'] == c['abort_call']:
+                raise KeyboardInterrupt()
+            return real_b(n)
+        src_b.get_samples = flaky_b
+        try:
+            be_b1.record(output_file_stem=ctx.path('aborted_b'), num_blocks=req, length_mode='num_blocks', header_dict={},
+                         digitize=c['digitize'], load_template=False, verbose=False)
+        except KeyboardInterrupt:
+            pass
+        src_b.get_samples = real_b
+        from setigen.voltage import backend as BE, polyphase_filterbank as P
+        fb = P.PolyphaseFilterbank(num_taps=c['taps'], num_branches=c['B'])
+        fb.channelized_stds = np.array(be.filterbank[0][0].channelized_stds, copy=True)
+        be_b2 = BE.RawVoltageBackend.from_data(stem_in, src_b, digitizer=make_digitizers(c), filterbank=fb,
+                                               start_chan=c['start_chan'], num_subblocks=c['nsb'])
+        stem_b = ctx.path('out_b')
+        ok, _ = core.call(obs, 'record[fresh backend]', lambda: be_b2.record(output_file_stem=stem_b, num_blocks=req, length_mode='num_blocks',
+                                                                             header_dict={}, digitize=c['digitize'], load_template=False, verbose=False))
+        if ok and c.get('preseed', True) or (ok and (c['na'] > 1 or c['B'] > 8)):
+            data_a, _ = volt.read_payloads(stem_out)
+            data_b, _ = volt.read_payloads(stem_b)
+            if data_a != data_b:
+                a_ = np.frombuffer(data_a, dtype=np.int8)
+                b_ = np.frombuffer(data_b, dtype=np.int8)
+                n_ = int(np.sum(a_ != b_)) if a_.shape == b_.shape else -1
+                first = int(np.flatnonzero(a_ != b_)[0]) // z['block_size'] if n_ > 0 else -1
+                obs.fail('recording_after_abort_depends_on_backend_history',
+                         f'{n_} of {a_.size} bytes differ from a fresh backend on the same antenna state (first in block {first})')
+        obs.nontrivial = True
+        return obs
     # ---- (3) stationary gain ------------------------------------------------------------------------------
     idx, f_tone, beta = tone_setup(c)
     sign = 1.0 if c['ascending'] else -1.0
@@ -320,7 +394,7 @@ def exact_model(obs, c, z, blocks_in, out, n_out, cstds):
                 for b in range(n_out):
                     ln = (spb + (T if b == 0 else 0)) * B
                     seg = x[pos:pos + ln]
-                    qq, yy = quantize_ref(seg, seg[:10000], 32 / fw, 8)
+                    qq, yy = quantize_ref(seg, seg[:10000], dig_fwhm(c, a, p) / fw, 8)
                     if np.any(np.abs(yy - np.floor(yy) - 0.5) < 1e-9):
                         obs.count('excluded_digitiser_tie_cases')
                         return
@@ -328,7 +402,7 @@ def exact_model(obs, c, z, blocks_in, out, n_out, cstds):
                     pos += ln
                 x = q
             X = reference_fast(x, h, T, B)[:, s0:s0 + nch]
-            custom = cstds[a][p] * (32 / fw if c['digitize'] else 1.0)      # the backend's cached unit-noise estimate
+            custom = cstds[a][p] * (dig_fwhm(c, a, p) / fw if c['digitize'] else 1.0)      # the backend's cached unit-noise estimate
             for b in range(n_out):
                 V = X[b * spb:(b + 1) * spb]
                 inp = blocks_in[b][a * nch:(a + 1) * nch, :, p].T            # (spb, nch)
